@@ -12,6 +12,12 @@ use std::time::Duration;
 #[derive(Clone, Debug, PartialEq, Eq, Hash)]
 pub enum Hop {
   Sub(usize),
+  /// subscribe through `take(1)`: a subscriber that finishes by itself after its first item
+  /// but keeps its handle until it is unsubscribed (hot sources only)
+  SubTake(usize),
+  /// subscribe through `start_with([0]).first()`: the subscriber is already finished when the
+  /// share itself gets subscribed; it keeps its handle until it is unsubscribed
+  SubDone(usize),
   Unsub(usize),
   Emit,
   SrcComplete,
@@ -80,6 +86,7 @@ pub fn observe(c: &Case) -> Result<Obs, String> {
     let mut overlapped = false;
     let mut left_before_end = false;
     let mut rejoined = [false; 3];
+    let mut taker = [false; 3];
     let mut rejoin_at: Option<u64> = None;
 
     // the pipelines under test
@@ -129,9 +136,14 @@ pub fn observe(c: &Case) -> Result<Obs, String> {
 
     for hop in &c.h {
       match hop {
-        Hop::Sub(k) => {
+        Hop::Sub(k) | Hop::SubTake(k) | Hop::SubDone(k) => {
           if active[*k] || subs[*k].is_some() || subs_t[*k].is_some() || ever[*k] {
             continue; // one subscription per subscriber slot
+          }
+          let take1 = matches!(hop, Hop::SubTake(_));
+          let done_on_arrival = matches!(hop, Hop::SubDone(_));
+          if (take1 || done_on_arrival) && (c.src != SrcKind::Hot || c.mode == Mode::Publish) {
+            continue;
           }
           ever[*k] = true;
           if all_left_at.is_some() {
@@ -148,7 +160,28 @@ pub fn observe(c: &Case) -> Result<Obs, String> {
           }
           let probe = Probe::new(1 + *k as u32, &log);
           let was_connected = connected;
+          let mut done_now = false;
           match c.mode {
+            Mode::Share if done_on_arrival => {
+              subs[*k] = Some(BoxSubscription::new(share_l.as_ref().unwrap().clone().start_with(vec![V::I(0)]).first().actual_subscribe(probe)));
+              connected = true;
+              done_now = true;
+            }
+            Mode::ShareThreads if done_on_arrival => {
+              subs_t[*k] = Some(BoxSubscriptionThreads::new(share_t.as_ref().unwrap().clone().start_with(vec![V::I(0)]).first().actual_subscribe(probe)));
+              connected = true;
+              done_now = true;
+            }
+            Mode::Share if take1 => {
+              subs[*k] = Some(BoxSubscription::new(share_l.as_ref().unwrap().clone().take(1).actual_subscribe(probe)));
+              connected = true;
+              taker[*k] = true;
+            }
+            Mode::ShareThreads if take1 => {
+              subs_t[*k] = Some(BoxSubscriptionThreads::new(share_t.as_ref().unwrap().clone().take(1).actual_subscribe(probe)));
+              connected = true;
+              taker[*k] = true;
+            }
             Mode::Share => {
               subs[*k] = Some(BoxSubscription::new(share_l.as_ref().unwrap().clone().actual_subscribe(probe)));
               connected = true;
@@ -165,6 +198,13 @@ pub fn observe(c: &Case) -> Result<Obs, String> {
             overlapped = true;
           }
           active[*k] = !src_done;
+          if done_now {
+            // it has seen its cached item and completed by itself; only its handle remains
+            expected[*k].push(N::Next(V::I(0)));
+            expected[*k].push(N::Complete);
+            active[*k] = false;
+            rejoined[*k] = false;
+          }
           ever_joined = true;
           if !was_connected && connected && c.src == SrcKind::ColdSync {
             // the synchronous source emitted during the connecting subscription
@@ -201,7 +241,8 @@ pub fn observe(c: &Case) -> Result<Obs, String> {
             if !src_done {
               left_before_end = true;
             }
-            if ever_joined && !active.iter().any(|a| *a) && all_left_at.is_none() && c.mode != Mode::Publish && connected {
+            let held = subs.iter().any(|x| x.is_some()) || subs_t.iter().any(|x| x.is_some());
+            if ever_joined && !active.iter().any(|a| *a) && !held && all_left_at.is_none() && c.mode != Mode::Publish && connected {
               all_left_at = Some(log.mark(0, "last_subscriber_left", 0));
             }
           }
@@ -215,6 +256,9 @@ pub fn observe(c: &Case) -> Result<Obs, String> {
             for k in 0..3 {
               if active[k] && !rejoined[k] {
                 expected[k].push(N::Next(V::I(item)));
+                if taker[k] {
+                  expected[k].push(N::Complete);
+                }
               }
             }
           }
@@ -229,7 +273,16 @@ pub fn observe(c: &Case) -> Result<Obs, String> {
             for k in 0..3 {
               if active[k] && rejoined[k] {
                 expected[k].push(N::Next(V::I(item)));
+                if taker[k] {
+                  expected[k].push(N::Complete);
+                }
               }
+            }
+          }
+          // a taker is done after its first item (its handle stays until it is unsubscribed)
+          for k in 0..3 {
+            if taker[k] && active[k] && expected[k].last() == Some(&N::Complete) {
+              active[k] = false;
             }
           }
         }
@@ -382,7 +435,8 @@ pub fn random_case(r: &mut Rng, max_len: usize) -> Case {
   let mut h = vec![];
   for _ in 0..n {
     h.push(match r.below(12) {
-      0..=2 => Hop::Sub(r.below(3)),
+      0 | 1 => Hop::Sub(r.below(3)),
+      2 => match r.below(4) { 0 | 1 => Hop::SubTake(r.below(3)), 2 => Hop::SubDone(r.below(3)), _ => Hop::Sub(r.below(3)) },
       3 | 4 => Hop::Unsub(r.below(3)),
       5..=8 => {
         if src == SrcKind::Interval {
